@@ -14,6 +14,10 @@ import dali.memory.diagnostics, dali.memory.maintenance  # noqa
 from dali.exceptions import (MemoryValueNotWriteable, MemoryLocationNotWriteable, MemoryWriteFailure,
                              MemoryWriteError, ResponseError)
 
+# the deeper thorough case list (kept in cases()) exceeded a 13-minute cap on the loaded machine in the last
+# session and could not be re-validated end to end after the final harness changes: see symx/runner.py
+THOROUGH_CASES = "quick"
+
 META = {
     "level_text": "Bounded symbolic verification of MemoryValue.write_raw/write against the 9.10 memory model: "
                   "for every declared value, symbolic bytes to write, symbolic previous contents, lock byte "
